@@ -1,6 +1,7 @@
 //! geharness: runs the real glass-easel compilers in-process behind a line protocol.
 //! `geharness run` reads requests (`op TAB field…`) on stdin and answers one line each.
 mod codec;
+mod cssops;
 mod dump;
 mod ops;
 
